@@ -7,10 +7,91 @@ TZ = "offset::local::tz_info::"
 LR = "offset::LocalResult"
 
 
+T = "offset::local::tz_info::"
+RULE = "offset::local::tz_info::rule::"
+CUMUL = [0, 31, 59, 90, 120, 151, 181, 212, 243, 273, 304, 334]
+DIM = [31, 28, 31, 30, 31, 30, 31, 31, 30, 31, 30, 31]
+
+
+def r_day_tables(chk, P, tier):
+    """the month tables of the TZ-rule day arithmetic against the calendar (all 12 cells, both leap cases)"""
+    from rules import table_value
+    import calendar_oracle as cal
+    chk.rule("TBL.rule_days", "month-length and cumulative-day tables of RuleDay::transition_date equal the calendar's (normal year; +1 from March on in a leap year)", floor=4)
+    want_dim = [cal.days_in_month(2023, m) for m in range(1, 13)]
+    want_cum = [sum(want_dim[:m]) for m in range(12)]
+    want_cum_leap = [sum(cal.days_in_month(2024, k) for k in range(1, m + 1)) for m in range(12)]
+    assert want_dim == DIM and want_cum == CUMUL
+    for name, want in (("DAY_IN_MONTHS_NORMAL_YEAR", want_dim), ("CUMUL_DAY_IN_MONTHS_NORMAL_YEAR", want_cum)):
+        got = table_value(P, "offset::local::tz_info::" + name)
+        chk.expect(list(got) == want, name, "%s = %s, calendar says %s" % (name, list(got), want))
+    # the array literal of the Julian0WithLeap arm: const or const + (is_leap_year(year) as i64)
+    fn = RULE + "RuleDay::transition_date"
+    arrays = {}
+    for p_ in Sym(P, fn).paths():
+        for v in p_.env.values():
+            for t in walk_terms(v):
+                if isinstance(t, tuple) and t and t[0] == "agg" and len(t) > 4 and isinstance(t[4], (list, tuple)) and len(t[4]) == 12 and t[1] == "array":
+                    arrays[pp(t)] = t
+    if not arrays:
+        raise AnchorLost("no 12-element array literal in RuleDay::transition_date")
+    for key, t in arrays.items():
+        cells = []
+        for e in t[4]:
+            base, leap = None, False
+            ts = list(walk_terms(e))
+            consts = [const_of(x) for x in ts if x[0] in ("const", "named") and isinstance(const_of(x), int)]
+            leap = any(is_call(x) and str(x[1]).endswith("is_leap_year") for x in ts)
+            adds = [x for x in ts if x[0] == "bin" and x[1] in ("Add", "AddWithOverflow")]
+            if len(consts) == 1 and (leap == bool(adds)) and len(adds) <= 1:
+                base = consts[0]
+            cells.append((base, leap))
+        normal = [b for b, l in cells]
+        leapy = [None if b is None else b + (1 if l else 0) for b, l in cells]
+        chk.expect(normal == want_cum and leapy == want_cum_leap, "Julian0WithLeap cumulative array",
+                   "cumulative-day array of the Julian0WithLeap arm is %s in a normal and %s in a leap year; calendar says %s / %s" % (normal, leapy, want_cum, want_cum_leap), loc=P.loc(fn))
+    fn2 = RULE + "RuleDay::unix_time"
+    chk.expect(P.has(fn2) and fn in callees(P, fn2), "unix_time uses transition_date", "RuleDay::unix_time no longer derives the date through transition_date (anchor lost)")
+
+
+def r_dimension(chk, P, tier):
+    """wall-clock seconds and UTC instants are different coordinates: the wall-clock lookup may compare its argument with a
+    transition instant only after a UTC offset has been applied to that instant"""
+    from rules import tag_locals, comparisons
+    fn = T + "timezone::TimeZoneRef::<'a>::find_local_time_type_from_local"
+    chk.rule("DIM.local_vs_utc", "in the wall-clock lookup no comparison relates the wall-clock argument to a bare transition instant (Transition.unix_leap_time without a ut_offset added)", floor=4)
+    tr = T + "timezone::Transition"
+    ltt = T + "timezone::LocalTimeType"
+    fi_tr = [f["name"] for f in P.adts[tr]["variants"][0]["fields"]].index("unix_leap_time")
+    fi_off = [f["name"] for f in P.adts[ltt]["variants"][0]["fields"]].index("ut_offset")
+
+    def field_tag(tys, idx):
+        base = tys.lstrip("&").replace("mut ", "")
+        if base == tr and idx == fi_tr:
+            return "utc-instant"
+        if base == ltt and idx == fi_off:
+            return "offset"
+        return None
+    tags, of = tag_locals(P, fn, field_tag, arg_tag=lambda i: "wall-clock" if i == 2 else None)
+    n = 0
+    for ln, a, b in comparisons(P, fn):
+        ta, tb = of(a), of(b)
+        for x, y in ((ta, tb), (tb, ta)):
+            if "wall-clock" in x and "wall-clock" not in y and "utc-instant" in y:
+                n += 1
+                chk.expect("offset" in y, "comparison #%d" % n, "the wall-clock argument is compared with a transition instant to which no UTC offset was applied (line %s): "
+                           "local and UTC seconds are different coordinates" % ln, loc="%s:%s" % (P.fn(fn).get("file"), ln))
+    # positive control: the UTC lookup does compare its argument with bare instants (so the tags are live)
+    fn2 = T + "timezone::TimeZoneRef::<'a>::find_local_time_type"
+    tags2, of2 = tag_locals(P, fn2, field_tag, arg_tag=lambda i: "wall-clock" if i == 2 else None)
+    ctl = any("utc-instant" in (of2(a) | of2(b)) for ln, a, b in comparisons(P, fn2))
+    chk.expect(ctl, "control: utc-instant tag is live in find_local_time_type", "positive control failed: no comparison against Transition.unix_leap_time found in the UTC lookup")
+
+
 def run(chk, tier):
     P = Prog("default")
     chk.configs.add("default")
-    for r in (r_ord, r_projections, r_glue, r_passthrough):
+    for r in (r_ord, r_projections, r_glue, r_passthrough, r_day_tables, r_dimension):
         chk.guarded(r, P, tier)
     chk.assume("which transition applies to an instant, gap/fold classification on the exact second, the hemisphere/sign branches and rule-day arithmetic are "
                "comparisons between runtime quantities and are NOT decided; only the ordering of the two fold candidates and the contract glue are")
